@@ -116,6 +116,11 @@ class Ref:
         self.calls = 0
         # observations for other oracles
         self.call_log: list[tuple] = []  # (task name, args tuple, ctx) for each call evaluated
+        # (task name, bound args key) -> list of effective marker-option dicts (C27)
+        self.option_log: dict = {}
+        # (task name, bound args key) -> {param: (must ids, may ids)} upstream calls (C21)
+        self.flow_log: dict = {}
+        self.track_flow = False
 
     # -- entry ---------------------------------------------------------------
     def run(self) -> Out:
@@ -130,10 +135,31 @@ class Ref:
         self.calls += 1
         if self.calls > 5000:
             raise Loose()
+        # Options: definition < exported by ancestors < call-time (options / export_options).
+        from .progs import OPT_KEYS
+
+        inherited = caller_ctx.get("__exports__", {})
+        def_opts = {k: v for k, v in t.options.items() if k in OPT_KEYS or k == "prov"}
+        def_opts.update(t.def_export)
+        # call-time overrides are chained calls: the later one wins for a repeated key
+        call_layers = [opts.get("options") or {}, opts.get("export") or {}]
+        if opts.get("export_first"):
+            call_layers.reverse()
+        effective = {**def_opts, **inherited, **call_layers[0], **call_layers[1]}
+        export_names = set(inherited) | set(opts.get("export") or {}) | set(t.def_export)
+        if "prov" in t.options:
+            export_names.add("prov")  # provenance recording is exported automatically
+        job_ctx = dict(job_ctx)
+        job_ctx["__exports__"] = {k: effective[k] for k in export_names if k in effective}
+        self._pending_options = effective
         # Defaults for parameters not supplied are evaluated in the job's context.
         supplied = set(p[0] for p in t.params[: len(args)]) | {k for k, _ in kwargs}
         dnodes = [(name, d) for (name, kind, d) in t.params if name not in supplied and d is not None]
-        douts = [(name, self.eval(d, {}, job_ctx)) for name, d in dnodes]
+        # (default expressions see the job's *context*, but they are evaluated as children of
+        # the calling job, so exported options come from the caller, not from this job)
+        default_ctx = dict(job_ctx)
+        default_ctx["__exports__"] = inherited
+        douts = [(name, self.eval(d, {}, default_ctx)) for name, d in dnodes]
         children = args + [o for _, o in kwargs] + [o for _, o in douts]
         combos, errs = par(children)
         out = Out([("e", e) for e in errs])
@@ -142,6 +168,13 @@ class Ref:
             names = [p[0] for p in t.params[: len(args)]] + [k for k, _ in kwargs] + [n for n, _ in douts]
             for n, v in zip(names, combo):
                 env[n] = v
+            akey = tuple((p[0], vkey(env[p[0]])) for p in t.params if p[0] in env)
+            self.option_log.setdefault((t.name, akey), []).append(dict(effective))
+            if self.track_flow:
+                flows = dict(opts.get("__flows__") or {})
+                for n, _ in douts:
+                    flows[n] = (set(), set())  # defaults are recorded as plain values
+                self.flow_log.setdefault(("vp." + t.name, akey), []).append(flows)
             for o in self.body(t, env, job_ctx).outs:
                 out.add(o)
         return out
@@ -205,8 +238,24 @@ class Ref:
                 job_ctx = merge_dicts([ctx, opts["ctx"]])
             if t.options.get("_ctx") is not None:
                 job_ctx = merge_dicts([ctx, t.options["_ctx"]])
+            ev_opts = dict(opts)
+            for grp in ("options", "export"):
+                if opts.get(grp):
+                    vals = {}
+                    for name, v in opts[grp].items():
+                        o = E(v) if isinstance(v, tuple) and v and isinstance(v[0], str) else Out.value(v)
+                        if len(o.vals) != 1 or o.errs:
+                            raise Loose()
+                        vals[name] = o.vals[0]
+                    ev_opts[grp] = vals
+            if self.track_flow:
+                names = [p[0] for p in t.params]
+                flows = {}
+                for pname, a in list(zip(names, args)) + list(kwargs):
+                    flows[pname] = self.flow(a, env, ctx)
+                ev_opts["__flows__"] = flows
             return self.apply(t, [E(a) for a in args], [(n, E(a)) for n, a in kwargs],
-                              ctx, job_ctx, opts)
+                              ctx, job_ctx, ev_opts)
         if k == "list":
             return self.lift([E(x) for x in node[1]], lambda *xs: list(xs))
         if k == "set":
@@ -334,6 +383,100 @@ class Ref:
         if k == "getctx":
             return Out.value(get_context_value(ctx, node[1], node[2]))
         raise ValueError(k)
+
+
+    # -- upstream dataflow of an argument expression (C21) -------------------------------
+    def call_id(self, node: Any, env: dict, ctx: dict) -> tuple:
+        """Identity of the call a ("call", ...) node denotes: (task fullname, bound args key)."""
+        _, tidx, args, kwargs, opts = node
+        t = self.prog.tasks[tidx]
+        job_ctx = ctx
+        if opts.get("ctx") is not None:
+            job_ctx = merge_dicts([ctx, opts["ctx"]])
+        vals = {}
+        names = [p[0] for p in t.params]
+        for pname, a in list(zip(names, args)) + list(kwargs):
+            o = self.eval(a, env, ctx)
+            if len(o.vals) != 1 or o.errs:
+                raise Loose()
+            vals[pname] = o.vals[0]
+        for (pname, kind, d) in t.params:
+            if pname not in vals and d is not None:
+                o = self.eval(d, {}, job_ctx)
+                if len(o.vals) != 1 or o.errs:
+                    raise Loose()
+                vals[pname] = o.vals[0]
+        return ("vp." + t.name, tuple((p[0], vkey(vals[p[0]])) for p in t.params if p[0] in vals))
+
+    def flow(self, node: Any, env: dict, ctx: dict) -> tuple[set, set]:
+        """
+        (must, may): calls whose result necessarily flows into the value of `node`, and calls
+        that an enclosing control form evaluated on the way (e.g. a cond's condition).
+        """
+        k = node[0]
+        F = lambda n: self.flow(n, env, ctx)
+
+        def union(nodes):
+            must, may = set(), set()
+            for n in nodes:
+                a, b = F(n)
+                must |= a
+                may |= b
+            return must, may
+
+        if k in ("lit", "par", "getctx", "mix", "errcode"):
+            return set(), set()
+        if k == "call":
+            cid = self.call_id(node, env, ctx)
+            return {cid}, {cid}
+        if k in ("list", "tuple", "nt", "dc", "seq", "set"):
+            return union(node[1])
+        if k == "dict":
+            return union([n for _, n in node[1]])
+        if k == "op":
+            return union([node[2], node[3]])
+        if k == "idx":
+            inner = node[1]
+            if inner[0] in ("list", "tuple") and isinstance(node[2], int):
+                return F(inner[1][node[2]])
+            if inner[0] == "dict":
+                for key, n in inner[1]:
+                    if key == node[2]:
+                        return F(n)
+            return F(inner)
+        if k == "attr":
+            inner = node[1]
+            if inner[0] in ("nt", "dc") and node[2] in ("x", "y"):
+                return F(inner[1][0 if node[2] == "x" else 1])
+            return F(inner)
+        if k == "cond":
+            c = self.eval(node[1], env, ctx)
+            if len(c.vals) != 1 or c.errs:
+                raise Loose()
+            taken = node[2] if c.vals[0] else node[3]
+            cm, cy = F(node[1])
+            tm, ty = F(taken)
+            am, ay = union([node[2], node[3]])
+            # the condition only controls: it *may* be linked, the taken branch *must* be
+            return tm, cy | ty | ay
+        if k in ("catch",):
+            return F(node[1])
+        if k == "catchall":
+            return union(node[1])
+        if k in ("map", "flatmap"):
+            m, y = F(node[2])
+            if k == "flatmap":
+                return {("redun.flat_map", None)}, {("redun.flat_map", None)}
+            return m, y
+        if k == "applyf":
+            return {("redun.apply_func", None)}, {("redun.apply_func", None)}
+        if k == "forkjoin":
+            return {("vp.join_", None)}, {("vp.join_", None)}
+        if k == "tags":
+            return F(node[1])
+        if k == "noprov":
+            return {("redun.no_prov", None)}, {("redun.no_prov", None)}
+        raise Loose()
 
 
 # -- documented context rules (docs/source/context.md), re-implemented -------------
